@@ -2,6 +2,8 @@ package batchrun
 
 import (
 	"fmt"
+	"os"
+	"path/filepath"
 	"strings"
 	"unicode/utf8"
 
@@ -80,6 +82,15 @@ func drawBase(t *rapid.T, x *X, maxLen int) *Case {
 	c.Input = gspec.SampleInput(t, g, entryRuleName(g, c.Entry), alphabetFor(g), maxLen)
 	if gspec.U(t, 3, "fname") == 0 {
 		c.Opts.Filename = gspec.Pick(t, []string{"f.txt", "dir/a b.peg", "100%d/%s.txt", "f.txt"}, "filename")
+	}
+	// the three entry points are one parser: a fifth of the cases go through ParseReader or
+	// ParseFile (the file is written by the adapter; its name is the filename of the case)
+	switch gspec.U(t, 10, "entrypoint") {
+	case 0:
+		c.Opts.Via = "reader"
+	case 1:
+		c.Opts.Via = "file"
+		c.Opts.Filename = filepath.Join(os.TempDir(), fmt.Sprintf("vrt-parsefile-%d.txt", os.Getpid()))
 	}
 	return c
 }
